@@ -4,7 +4,9 @@ Space (E2, crossed completely per file): every non-empty subset of the file's ta
 item per table; per table every column x row in {first, middle, last} x key form in {name, integer index, negative
 integer index, reversed name (connection tables)} as single-item calls in tuple form and in list form, and all of a table's
 items together in one call (in order and reversed) and every row of a table in one call; a reduced selection set from every starting index;
-short in {True, False} on AUTOUGH2 files with short output; selections with no valid item.
+short in {True, False} on AUTOUGH2 files with short output; selections with no valid item; and successive calls on ONE
+reader: every ordered pair (thorough: also every ordered triple), with repetition, of the selections {each table alone,
+every pair of tables, all tables} x short on/off, each call of the sequence judged like a single call.
 
 Oracle (the property statement): one stepping pass (first(), then next() until it says no) gives
 cube[table][time]; the series of an item must equal that cell at every full result time (negated for a
@@ -29,7 +31,9 @@ RULE = ('per shipped listing: all ordered non-empty subsets of its tables (one i
         'integer index, negative integer index (-rows for the first, interior, -1 for the last), reversed name where the table allows it} x call forms {tuple, one-element list}, plus all items '
         'of a table in one call, in order and reversed; every starting index x {one item per table singly, first two '
         'tables, all tables}; short in {True, False} where the file has short output; selections without a valid item. '
-        'A case is one history() call on a fresh reader; non-trivial = it names at least one existing cell; distinct = '
+        'Successive calls on one reader: every ordered pair (thorough: and triple) with repetition of the selections {each table, every '
+        'pair of tables, all tables} x short on/off, rows and columns moved from call to call. '
+        'A case is one history() call on a fresh reader, or one such sequence of calls on one fresh reader (every call judged); non-trivial = it names at least one existing cell; distinct = '
         'distinct (file, selection, call form, short, starting index)')
 ASSUMPTIONS = ['expected values come from the reader\'s own tables while stepping (first(), next()...), as the statement '
                'defines them; values at AUTOUGH2 short result sets come from an independent whitespace tokenisation of '
@@ -47,9 +51,11 @@ ASSUMPTIONS = ['expected values come from the reader\'s own tables while steppin
                'every call is made on an independent deep copy of a pristine freshly opened listing (compared field by '
                'field with a second genuine open once per file); replays use a genuine fresh open']
 BOUNDS = {'quick': {'files': 'shipped listings smaller than 300 kB (counted in counters.files)', 'ordered_subsets': 'all',
-                    'items': 'all columns x 3 rows x key forms x 2 call forms', 'start_indices': 'all'},
+                    'items': 'all columns x 3 rows x key forms x 2 call forms', 'start_indices': 'all',
+                    'successive_calls_on_one_reader': 'all ordered pairs of the selection set'},
           'thorough': {'files': 'all shipped listings (counted in counters.files)', 'ordered_subsets': 'all',
-                       'items': 'all columns x 3 rows x key forms x 2 call forms', 'start_indices': 'all'}}
+                       'items': 'all columns x 3 rows x key forms x 2 call forms', 'start_indices': 'all',
+                       'successive_calls_on_one_reader': 'all ordered pairs and all ordered triples of the selection set'}}
 TECHNIQUE = ('bounded exhaustive enumeration of history() selections (all ordered table subsets, all cells of the '
              'row/column/key-form lattice, all starting indices) on the real reader against a stepping pass')
 LEVEL_TEXT = ('Every ordered table subset, every column x boundary row x key form of every table and every starting index of '
@@ -59,7 +65,7 @@ LEVEL_NOTE = ('Columns are crossed with the first/middle/last rows; all rows are
               'the whitespace tokenisation of AUTOUGH2 SHORT tables.')
 
 SPEC = {'element': 'e', 'element1': 'e1', 'element2': 'e2', 'connection': 'c', 'primary': 'p', 'generation': 'g'}
-PARTS = ('subsets', 'items', 'starts')
+PARTS = ('subsets', 'items', 'starts', 'sequences')
 
 _pristine = listkit.Pristine()
 
@@ -71,6 +77,8 @@ def units(tier):
             continue
         for part in PARTS:
             us.append((key, part))
+        if tier == 'thorough':
+            us.append((key, 'sequences3'))
     return us
 
 
@@ -364,7 +372,46 @@ def calls_starts(ctx):
                 yield {'selection': [one(t) for t in g], 'form': 'list', 'short': sh, 'start': start}
 
 
-FAMILY = {'subsets': calls_subsets, 'items': calls_items, 'starts': calls_starts}
+def sequence_selections(ctx):
+    """The selections successive calls on one reader are drawn from: each table alone, every pair of tables,
+    all tables together (x short on/off where the file has short output).  'variant' moves the row and the
+    column so that successive calls do not ask for the same cells."""
+    names = ctx.tablenames
+    groups = [[t] for t in names] + [list(p) for p in itertools.combinations(names, 2)]
+    if len(names) >= 3:
+        groups.append(list(names))
+
+    def item(t, variant):
+        tb = ctx.tables[t]
+        rows = [nm for nm in tb['rows'] if nm not in tb['dups']]
+        row = rows[[len(rows) // 2, 0, len(rows) - 1][variant % 3]]
+        return (SPEC[t], row, tb['cols'][[0, len(tb['cols']) - 1, len(tb['cols']) // 2][variant % 3]])
+    out = []
+    for g in groups:
+        for sh in shorts(ctx):
+            out.append((g, sh))
+
+    def call(sel, variant):
+        g, sh = sel
+        return {'selection': [item(t, variant) for t in g], 'form': 'tuple' if len(g) == 1 and variant % 2 == 0 else 'list',
+                'short': sh, 'start': 0}
+    return out, call
+
+
+def calls_sequences(ctx, length=2):
+    """Every ordered tuple (with repetition) of 'length' selections, as successive history() calls on ONE reader."""
+    sels, call = sequence_selections(ctx)
+    for combo in itertools.product(range(len(sels)), repeat=length):
+        yield {'sequence': [call(sels[i], pos) for pos, i in enumerate(combo)]}
+
+
+def calls_sequences3(ctx):
+    return calls_sequences(ctx, 3)
+
+
+FAMILY = {'subsets': calls_subsets, 'items': calls_items, 'starts': calls_starts, 'sequences': calls_sequences,
+          'sequences3': calls_sequences3}
+ORDINAL = {2: 'second-call', 3: 'third-call'}
 
 
 # ----------------------------------------------------------------------------------------------------
@@ -372,6 +419,8 @@ FAMILY = {'subsets': calls_subsets, 'items': calls_items, 'starts': calls_starts
 def to_json(case, key):
     def k(x):
         return {'t': list(x)} if isinstance(x, tuple) else x
+    if 'sequence' in case:
+        return {'file': key, 'sequence': [to_json(c, key) for c in case['sequence']]}
     return {'file': key, 'selection': [[s, k(r), c] for s, r, c in case['selection']], 'form': case['form'],
             'short': case['short'], 'start': case['start']}
 
@@ -379,6 +428,8 @@ def to_json(case, key):
 def from_json(case):
     def k(x):
         return tuple(x['t']) if isinstance(x, dict) else x
+    if 'sequence' in case:
+        return {'sequence': [from_json(c) for c in case['sequence']]}
     return {'selection': [(s, k(r), c) for s, r, c in case['selection']], 'form': case['form'],
             'short': case['short'], 'start': case['start']}
 
@@ -478,6 +529,23 @@ def eval_call(ctx, case, lst):
     return out, ('violates' if out else 'agrees')
 
 
+def eval_case(ctx, case, lst):
+    """One case on the reader 'lst': a single call, or successive calls on this one reader - each judged against
+    stepping, for termination and for leaving the reader unchanged.  A violation in the n-th call (n > 1) gets the
+    signature suffix |second-call / |third-call; the sequence stops there (the reader is no longer trusted)."""
+    if 'sequence' not in case:
+        return eval_call(ctx, case, lst)
+    for n, call in enumerate(case['sequence'], 1):
+        viol, outcome = eval_call(ctx, call, lst)
+        if viol:
+            if n > 1:
+                before = '; '.join(repr([it[0] for it in c['selection']]) for c in case['sequence'][:n - 1])
+                viol = [('%s|%s' % (sig, ORDINAL[n]), '%s [after history() calls on the same reader for tables %s]' % (what, before))
+                        for sig, what in viol]
+            return viol, outcome
+    return [], 'agrees'
+
+
 def _shape(res):
     if isinstance(res, (list, tuple)):
         return '%s of %d' % (type(res).__name__, len(res))
@@ -511,7 +579,7 @@ def _run_unit(unit, tier, rec):
         lst = _pristine.fresh(ctx.path)
         try:
             with core.timelimit(300):
-                viol, outcome = eval_call(ctx, case, lst)
+                viol, outcome = eval_case(ctx, case, lst)
         except core.CaseTimeout:
             viol, outcome = [('C06|history|timeout|%s' % ctx.sim, 'call did not return within 300 s')], 'timeout'
         finally:
@@ -530,7 +598,7 @@ def _run_unit(unit, tier, rec):
             rec.count('ordered_subset_calls_%s' % ctx.sim)
             if outcome == 'agrees':
                 rec.count('ordered_subset_calls_agreeing_with_stepping_%s' % ctx.sim)
-        if outcome == 'agrees' and len(case['selection']) > 1:
+        if outcome == 'agrees' and ('sequence' in case or len(case['selection']) > 1):
             rec.sample({'file': key, 'call': js, 'outcome': outcome})
     rec.count('calls_%s' % part, ncalls)
     if part == PARTS[0]:
@@ -554,7 +622,7 @@ def _replay_with(ctx, case):
     lst = listkit.open_listing(ctx.path)
     try:
         with core.timelimit(300):
-            viol, outcome = eval_call(ctx, from_json(case), lst)
+            viol, outcome = eval_case(ctx, from_json(case), lst)
     finally:
         listkit.close_listing(lst)
     return viol
